@@ -157,7 +157,7 @@ fn lib_body(rng: &mut Rng, prefix: &str, n_syms: usize) -> (String, Vec<String>)
 /// occurrences of the same undefined name in several files, several imported
 /// files each with a parse error, missing files.
 pub fn gen_hash_project(rng: &mut Rng, k: u64) -> Project {
-    let kind = rng.weighted(&[5, 6, 4, 3, 3, 3, 2, 3]);
+    let kind = rng.weighted(&[5, 6, 4, 3, 3, 3, 2, 3, 3]);
     let mut p = Project::new("");
     p.toml = toml_for(rng);
     let n_libs = rng.range(2, 4);
@@ -329,6 +329,48 @@ pub fn gen_hash_project(rng: &mut Rng, k: u64) -> Project {
                 let other = (dup + 1) % n_libs;
                 lib_texts[other].push_str(&format!(".import * from \"lib{}.asm\"\n", dup));
             }
+        }
+        // passes that never settle: segments (generated, span-less symbols) and forward labels whose
+        // values depend on each other and flip in every pass; which of them does the bail-out report?
+        8 => {
+            p.label = format!("gen{}:unsettled", k);
+            p.toml = p.toml.replace("output-format = \"prg\"\n", "");
+            let n_seg = rng.range(2, 4);
+            let names: Vec<String> = (0..n_seg).map(|i| format!("s{}", NAMES[i % NAMES.len()])).collect();
+            let chained = rng.chance(1, 3);
+            for (i, n) in names.iter().enumerate() {
+                if chained && i > 0 {
+                    main.push_str(&format!(".define segment {{\n    name = \"{}\"\n    start = segments.{}.end\n}}\n", n, names[i - 1]));
+                } else {
+                    main.push_str(&format!(".define segment {{\n    name = \"{}\"\n    start = ${:x}\n}}\n", n, 0x1000 * (i + 1)));
+                }
+            }
+            // how many of the segments take part in the dependency ring (>= 2 unless a label oscillates instead)
+            let ring = rng.range(2, n_seg);
+            for (i, n) in names.iter().enumerate() {
+                main.push_str(&format!(".segment \"{}\" {{\n", n));
+                if i < ring {
+                    let other = &names[(i + 1) % ring];
+                    let base = if chained { 0x1000 } else { 0x1000 * (((i + 1) % ring) + 1) };
+                    main.push_str(&format!("    .if segments.{}.end > ${:x} {{ nop }} else {{ nop\n    nop }}\n", other, base + 1));
+                } else {
+                    main.push_str("    nop\n");
+                }
+                if rng.chance(1, 3) {
+                    // a forward label that flips as well (has a span)
+                    main.push_str(&format!("    .if later_{} > ${:x} {{ nop }} else {{ nop\n    nop }}\nlater_{}: rts\n", i, 0x1000 * (i + 1) + 2, i));
+                }
+                main.push_str("}\n");
+            }
+            // everything else lives in a segment of its own, outside the ring
+            main.push_str(".define segment {\n    name = \"rest\"\n    start = $9000\n}\n.segment \"rest\" {\n");
+            if rng.chance(1, 3) {
+                main.push_str("    lda truly_missing\n    lda truly_missing\n");
+            }
+            for l in 0..n_libs {
+                main.push_str(&format!(".import * from \"lib{}.asm\"\n", l));
+            }
+            main.push_str("}\n");
         }
         // macros across files + loops, with several uses of an undefined name inside macro expansions
         _ => {
